@@ -71,6 +71,7 @@ void harness(void) {
   int calls0 = vs.ncalls;
 
   vs_begin_call(FAULTS, VS_M_EINTR | VS_M_EAGAIN | VS_M_SHORT | VS_M_HARD);
+  vs.nb_call = !blocking;
   pssize r;
   if (KIND == 1) r = p_socket_send(A, (const pchar *) buf, buflen, &err);
   else if (KIND == 2) r = p_socket_send_to(A, dest, (const pchar *) buf, buflen, &err);
